@@ -848,8 +848,9 @@ func c17Limiters(p *core.Program) []*core.FuncInfo {
 		if fi.Pkg != pk || fi.Decl.Body == nil {
 			continue
 		}
+		// (a method of the logger, or of a small limiter type the logger delegates to)
 		rn := core.RecvNamed(fi.Obj)
-		if rn == nil || rn.Obj().Name() != "FileLogger" {
+		if rn == nil {
 			continue
 		}
 		sig := fi.Obj.Type().(*types.Signature)
@@ -965,6 +966,29 @@ func c17Levels(p *core.Program, r *core.Report) {
 			if fn, _ := info.ObjectOf(sel.Sel).(*types.Func); fn != nil && wrapperOf[fn] != nil && depth < 4 {
 				w := wrapperOf[fn]
 				for _, rc := range wrapperRets[fn] {
+					// a wrapper that hands its own parameter on as the interval: what the caller passed counts
+					if len(rc.Args) == 2 {
+						if pid, ok := ast.Unparen(stripConvs(w.Pkg.TypesInfo, rc.Args[1])).(*ast.Ident); ok {
+							k, idx := 0, -1
+							for _, f := range w.Decl.Type.Params.List {
+								for _, n := range f.Names {
+									if w.Pkg.TypesInfo.Defs[n] == w.Pkg.TypesInfo.ObjectOf(pid) {
+										idx = k
+									}
+									k++
+								}
+							}
+							if idx >= 0 && idx < len(call.Args) {
+								e := stripConvs(info, expandLocals(info, body, call.Args[idx]))
+								if sel, ok := ast.Unparen(e).(*ast.SelectorExpr); ok {
+									if fv, ok := info.ObjectOf(sel.Sel).(*types.Var); ok && fv.IsField() && fv.Name() == "cacheInterval" {
+										continue
+									}
+								}
+								return false
+							}
+						}
+					}
 					if !intervalIn(w.Pkg.TypesInfo, w.Decl.Body, rc, depth+1) {
 						return false
 					}
